@@ -251,14 +251,12 @@ func C17(c *Ctx) {
 			if !ok || ssau.CalleeName(nt) != "time.NewTimer" {
 				continue
 			}
-			sub, ok := nt.Common().Args[0].(*ssa.Call)
-			if !ok || ssau.CalleeName(sub) != "(time.Time).Sub" {
+			due := untilOf(nt.Common().Args[0])
+			if due == nil {
 				whyEarly = "the timer's duration is not 'At - now'"
 				continue
 			}
-			_, atOK := ssau.LoadOfField(sub.Common().Args[0], prog.Abs(ti.pkg), ti.entryT, ti.atField)
-			nowCall, nowOK := sub.Common().Args[1].(*ssa.Call)
-			if atOK && nowOK && ssau.CalleeName(nowCall) == "time.Now" {
+			if _, atOK := ssau.LoadOfField(due, prog.Abs(ti.pkg), ti.entryT, ti.atField); atOK {
 				okEarly = true
 			} else {
 				whyEarly = "the timer's duration is not 'entry.At - time.Now()'"
@@ -475,6 +473,7 @@ func C17(c *Ctx) {
 	}
 	c17Emitters(c, impls)
 	c17RequestContexts(c)
+	c17DelayFromAt(c)
 	_ = types.Typ
 }
 
@@ -590,6 +589,56 @@ func storesToPkg(fn *ssa.Function, pkg, typ, field string) []*ssa.Store {
 		}
 	})
 	return out
+}
+
+// untilOf: if v is the time left until some instant X — X.Sub(time.Now()) or time.Until(X) — X, else nil.
+func untilOf(v ssa.Value) ssa.Value {
+	cl, ok := v.(*ssa.Call)
+	if !ok {
+		return nil
+	}
+	switch ssau.CalleeName(cl) {
+	case "time.Until":
+		return cl.Common().Args[0]
+	case "(time.Time).Sub":
+		if now, isC := cl.Common().Args[1].(*ssa.Call); isC && ssau.CalleeName(now) == "time.Now" {
+			return cl.Common().Args[0]
+		}
+	}
+	return nil
+}
+
+// c17DelayFromAt: C17-R3 (mcrew).  A timer requested with an absolute due time is handed to Timers.Add as the time
+// left until then: every duration computed from instants on the way into Timers.Add is 'at - now' (X.Sub(time.Now())
+// or time.Until(X)), never 'now - at'.
+func c17DelayFromAt(c *Ctx) {
+	add := c.P.Func("cmd/mcrew", "Timers", "Add")
+	if add == nil {
+		return
+	}
+	n := 0
+	for _, f := range c.P.FuncsIn("cmd/mcrew") {
+		ssau.Instrs(f, func(in ssa.Instruction) {
+			cl, ok := in.(*ssa.Call)
+			if !ok || cl.Common().StaticCallee() != add || len(cl.Common().Args) < 5 {
+				return
+			}
+			for _, d := range deepDefs(cl.Common().Args[4], []*ssa.Function{f}) {
+				dc, isC := d.(*ssa.Call)
+				if !isC {
+					continue
+				}
+				switch ssau.CalleeName(dc) {
+				case "time.Until", "time.Since", "(time.Time).Sub":
+					n++
+					c.R.Check(untilOf(dc) != nil, "C17-R3", fmt.Sprintf("mcrew: %s: a due time becomes the delay from now #%d", fname(f), n), c.pos(dc), "at.Sub(time.Now()) or time.Until(at)", "the delay handed to Timers.Add for an absolute due time is not 'due time - now' (it is "+ssau.CalleeName(dc)+"): a timer due in the future is scheduled with a negative delay and fires at once")
+				}
+			}
+		})
+	}
+	if n == 0 {
+		c.R.Break("C17-R3: no delay computed from an absolute due time found on the way into mcrew's Timers.Add")
+	}
 }
 
 // c17RequestContexts: C17-R8.  mcrew's Timers.Add ties the life of a timer to
